@@ -1,12 +1,12 @@
 (* C08: the whole oracle on every legal history (close requests included) *)
 From Coq Require Import List Bool Arith NArith Lia.
 From TxVerif Require Import Lib.Bytes Lib.NList Spec.C07 Spec.C08 Model.State Model.StateNotify
-  Proofs.NListProofs Proofs.C07Proofs Proofs.StateShape Proofs.C08Proofs Proofs.C08Refine Proofs.C08Waits Proofs.C08Close.
+  Proofs.NListProofs Proofs.C07Proofs Proofs.StateShape Proofs.C08Proofs Proofs.C08Refine Proofs.C08Waits Proofs.C08Tables.
 Import ListNotations.
 Open Scope N_scope.
 
 (* ---------------------------------------------------------------- where a wait id can be held *)
-Definition cmd_pair (c : cmdrec) : N * bool := match c with CmdC _ w ok | CmdS _ w ok => (w, ok) end.
+Definition cmd_pair (c : cmdrec) : N * bool := match c with CmdC _ w ok | CmdS _ w ok => (w, ok) | CmdB w => (w, true) end.
 Definition cmd_w (c : cmdrec) : N := fst (cmd_pair c).
 Definition citems (xs : xstate) (o : N) : list N := items_holders (tget [] (cclosing xs) o).
 Definition sitems (xs : xstate) (o : N) : list N := items_holders (tget [] (sclosing xs) o).
@@ -195,7 +195,7 @@ Qed.
 Definition mkw (w : N) (k : wkind) (c : bool) (o : N) (g p : bool) : wait :=
   {| w_id := w; w_kind := k; w_circ := c; w_obj := o; w_gone_seen := g; w_pending_cmd := p |}.
 Definition has_cmds (xs : xstate) (w : N) : bool :=
-  existsb (fun c => match c with CmdS _ w' _ => w' =? w | CmdC _ _ _ => false end) (cmds xs).
+  existsb (fun c => match c with CmdS _ w' _ => w' =? w | _ => false end) (cmds xs).
 
 (* the open waits of the specification are exactly these records *)
 Inductive rec_of (xs : xstate) : wait -> Prop :=
@@ -212,7 +212,53 @@ Definition sinfo_ok (ss : sstate) (o : N) (x : scell) : Prop :=
   oi_id (tget (info0 0) (l_sinfo (s_l ss)) o) = s_id x /\
   (alive (l_sdict (s_l ss)) o = false <-> term_s x).
 
+(* the control connection's queue is either all EXTENDCIRCUITs or all close commands (see Spec.C08.lstate) *)
+Definition is_b (c : cmdrec) : bool := match c with CmdB _ => true | _ => false end.
+Definition qinv (ls : lstate) (l : list cmdrec) : Prop :=
+  N.of_nat (length (filter is_b l)) = l_nb ls /\
+  N.of_nat (length (filter (fun c => negb (is_b c)) l)) <= l_ncl ls /\
+  (0 < l_nb ls -> l_ncl ls = 0).
+
+Lemma qinv_head_b ls l : qinv ls l -> 0 < l_nb ls -> exists w q, l = CmdB w :: q.
+Proof.
+  intros [A [B C]] H. specialize (C H). rewrite C in B. destruct l as [|c q]; [cbn in A; lia|].
+  destruct c as [o w ok|o w ok|w]; [cbn in B; lia | cbn in B; lia | eauto].
+Qed.
+Lemma qinv_no_b ls l : qinv ls l -> l_nb ls = 0 -> forall c, In c l -> is_b c = false.
+Proof.
+  intros [A _] H c Hc. rewrite H in A. destruct (is_b c) eqn:E; [|reflexivity]. exfalso.
+  assert (Hf : In c (filter is_b l)) by (apply filter_In; auto). destruct (filter is_b l); [destruct Hf | cbn in A; lia].
+Qed.
+Lemma qinv_pop_close ls c q : qinv ls (c :: q) -> is_b c = false -> qinv (with_q ls (l_nb ls) (l_ncl ls - 1)) q.
+Proof.
+  intros [A [B C]] H. unfold qinv. cbn [with_q l_nb l_ncl filter] in *. rewrite H in A, B. cbn [negb length] in B.
+  split; [exact A|]. split; [lia|]. intros Hn. specialize (C Hn). lia.
+Qed.
+Lemma qinv_pop_build ls w q : qinv ls (CmdB w :: q) -> qinv (with_q ls (l_nb ls - 1) (l_ncl ls)) q.
+Proof.
+  intros [A [B C]]. unfold qinv. cbn [with_q l_nb l_ncl filter is_b negb length] in *.
+  split; [lia|]. split; [exact B|]. intros Hn. apply C. lia.
+Qed.
+Lemma qinv_empty ls nb ncl : l_nb ls = 0 -> nb = 0 -> qinv (with_q ls nb ncl) [].
+Proof. intros H ->. unfold qinv. cbn. split; [reflexivity|]. split; lia. Qed.
+Lemma qinv_push_close ls l c w : qinv ls l -> is_b c = false -> l_nb ls = 0 -> qinv (use_q ls w (l_nb ls) (l_ncl ls + 1)) (l ++ [c]).
+Proof.
+  intros [A [B C]] H Hn. unfold qinv. cbn [use_q l_nb l_ncl]. rewrite !filter_app, !app_length. cbn [filter]. rewrite H. cbn [negb length].
+  split; [lia|]. split; lia.
+Qed.
+Lemma qinv_more_close ls l w : qinv ls l -> l_nb ls = 0 -> qinv (use_q ls w (l_nb ls) (l_ncl ls + 1)) l.
+Proof. intros [A [B C]] Hn. unfold qinv. cbn [use_q l_nb l_ncl]. split; [exact A|]. split; lia. Qed.
+Lemma qinv_push_build ls l w' w : qinv ls l -> l_ncl ls = 0 -> qinv (use_q ls w' (l_nb ls + 1) (l_ncl ls)) (l ++ [CmdB w]).
+Proof.
+  intros [A [B C]] Hn. unfold qinv. cbn [use_q l_nb l_ncl]. rewrite !filter_app, !app_length. cbn [filter is_b negb length].
+  split; [lia|]. split; [lia|]. intros _. exact Hn.
+Qed.
+
+Lemma qinv_same ls ls' l : l_nb ls' = l_nb ls -> l_ncl ls' = l_ncl ls -> qinv ls l -> qinv ls' l.
+Proof. intros A B. unfold qinv. now rewrite A, B. Qed.
+
 Record RelF (ss : sstate) (xs : xstate) : Prop := {
+  f_q : qinv (s_l ss) (cmds xs);
   f_rel : Rel (s_l ss) xs;
   f_cmdq : s_cmdq ss = map cmd_pair (cmds xs);
   f_cmd_nd : NoDup (map cmd_w (cmds xs));
@@ -233,6 +279,7 @@ Record RelF (ss : sstate) (xs : xstate) : Prop := {
 Lemma RelF_init rts : RelF ss0 (xinit rts).
 Proof.
   constructor; try reflexivity.
+  - split; [reflexivity | split; [cbn; lia | reflexivity]].
   - apply Rel_init.
   - constructor.
   - intros c [].
@@ -294,13 +341,16 @@ Proof. intros A B. unfold sinfo_ok. now rewrite A, B. Qed.
 Lemma relf_listener ss xs o ls' : RelF ss xs -> listener_op o = true -> lstep (s_l ss) o = Some ls' ->
   exists xs' es ss', x_op xs o = Some (xs', es) /\ spec_op ss o es = Some ss' /\ RelF ss' xs'.
 Proof.
-  intros Q Lo L. destruct (rel_op _ xs o ls' (f_rel _ _ Q) L) as [xs' [es [X [R' _]]]].
+  intros Q Lo L.
+  assert (Hq : qop o = false) by (destruct o; try discriminate Lo; reflexivity).
+  destruct (rel_op _ xs o ls' (f_rel _ _ Q) L Hq) as [xs' [es [X [R' _]]]].
   destruct (x_op_listener xs o xs' es Lo X) as [Fb [F1 [F2 [F3 [F4 [F5 ->]]]]]].
-  destruct (lstep_listener _ o ls' Lo L) as [E1 [E2 [E3 [E4 [E5 [E6 [E7 E8]]]]]]].
+  destruct (lstep_listener _ o ls' Lo L) as [E1 [E2 [E3 [E4 [E5 [E6 [E7 [E8 [E9 E10]]]]]]]]].
   exists xs', [], {| s_l := ls'; s_open := s_open ss; s_cmdq := s_cmdq ss |}.
   split; [exact X|]. split.
   - unfold spec_op. rewrite L. destruct o; try discriminate; reflexivity.
   - destruct Q. constructor; cbn [s_l s_open s_cmdq].
+    + rewrite F5. now apply (qinv_same (s_l ss)).
     + exact R'.
     + now rewrite F5.
     + now rewrite F5.
@@ -321,7 +371,7 @@ Qed.
 (* ---------------------------------------------------------------- when_built / when_closed requests *)
 Lemma relf_used ss xs w : RelF ss xs -> RelF {| s_l := use_w (s_l ss) w; s_open := s_open ss; s_cmdq := s_cmdq ss |} xs.
 Proof.
-  intros Q. destruct Q. constructor; cbn [s_l s_open s_cmdq use_w l_nc l_cinfo l_cdict l_used]; auto.
+  intros Q. destruct Q. constructor; cbn [s_l s_open s_cmdq use_w use_q l_nc l_cinfo l_cdict l_used]; auto.
   - apply (Rel_frame (s_l ss) _ xs xs f_rel0); reflexivity.
   - intros c H. right. now apply f_cmd_used0.
   - intros w' H. right. now apply f_hold_used0.
@@ -351,7 +401,8 @@ Proof.
   assert (PC : forall o', pend (wcs xs') o' = if negb built && (o =? o') then pend (wcs xs) o' ++ [w] else pend (wcs xs) o').
   { intros o'. unfold pend. rewrite TC. destruct built; cbn [andb negb]; [reflexivity|]. destruct (N.eqb_spec o o') as [<-|]; [|reflexivity].
     destruct HT as [E0 _]. now rewrite E0. }
-  destruct Q. constructor; cbn [s_l s_open s_cmdq use_w l_nc l_cinfo l_cdict l_sdict l_sinfo l_used].
+  destruct Q. constructor; cbn [s_l s_open s_cmdq use_w use_q l_nc l_cinfo l_cdict l_sdict l_sinfo l_used].
+  - rewrite F7. exact f_q0.
   - apply (Rel_frame (s_l ss) _ xs xs' f_rel0); auto.
   - now rewrite F7.
   - now rewrite F7.
@@ -359,7 +410,7 @@ Proof.
   - intros ob w0 ok. rewrite F7. unfold cpres. rewrite F5. apply f_cmd_gone0.
   - intros ob w0 ok. rewrite F7. apply f_cmd_ex0.
   - intros o' c' G. rewrite Fb in G. destruct (f_info0 o' c' G) as [[I1 [I2 [I3 I4]]] J]. split; [|exact J].
-    unfold info_ok. cbn [s_l use_w l_cinfo l_cdict]. split; [exact I1|]. split; [exact I2|]. rewrite TB, TC.
+    unfold info_ok. cbn [s_l use_w use_q l_cinfo l_cdict]. split; [exact I1|]. split; [exact I2|]. rewrite TB, TC.
     destruct built; cbn [andb negb]; destruct (N.eqb_spec o o') as [<-|]; destruct HT as [E0 _]; rewrite ?E0 in *; auto.
   - intros o' x G. rewrite Fb in G. apply (f_sinfo0 o' x G).
   - intros o' Ho. rewrite TB, TC. assert (o =? o' = false) by (apply N.eqb_neq; lia). rewrite H, !andb_false_r. now apply f_fresh0.
@@ -392,7 +443,7 @@ Qed.
 Lemma relf_when_built ss xs o w ls' : RelF ss xs -> lstep (s_l ss) (OWhenBuilt o w) = Some ls' ->
   exists xs' es ss', x_op xs (OWhenBuilt o w) = Some (xs', es) /\ spec_op ss (OWhenBuilt o w) es = Some ss' /\ RelF ss' xs'.
 Proof.
-  intros Q L. pose proof L as L0. cbn [lstep] in L.
+  intros Q L. pose proof L as L0. cbn [lstep] in L; unfold lstep_ev in L.
   destruct (N.ltb_spec o (l_nc (s_l ss))) as [Hlt|]; cbn [andb] in L; [|discriminate].
   destruct (memN w (l_used (s_l ss))) eqn:Hfr; cbn [negb] in L; [discriminate|]. injection L as <-.
   fold (use_w (s_l ss) w) in L0 |- *.
@@ -437,7 +488,7 @@ Qed.
 Lemma relf_when_closed ss xs o w ls' : RelF ss xs -> lstep (s_l ss) (OWhenClosed o w) = Some ls' ->
   exists xs' es ss', x_op xs (OWhenClosed o w) = Some (xs', es) /\ spec_op ss (OWhenClosed o w) es = Some ss' /\ RelF ss' xs'.
 Proof.
-  intros Q L. pose proof L as L0. cbn [lstep] in L.
+  intros Q L. pose proof L as L0. cbn [lstep] in L; unfold lstep_ev in L.
   destruct (N.ltb_spec o (l_nc (s_l ss))) as [Hlt|]; cbn [andb] in L; [|discriminate].
   destruct (memN w (l_used (s_l ss))) eqn:Hfr; cbn [negb] in L; [discriminate|]. injection L as <-.
   fold (use_w (s_l ss) w) in L0 |- *.
@@ -477,7 +528,14 @@ Qed.
 
 
 (* ---------------------------------------------------------------- operations that only touch the close machinery *)
-Lemma relf_frame ss xs ss' xs' : RelF ss xs -> s_l ss' = s_l ss ->
+Definition lsame (a b : lstate) : Prop := with_q a 0 0 = with_q b 0 0.
+Lemma lsame_fields a b : lsame a b ->
+  l_tv a = l_tv b /\ l_cdict a = l_cdict b /\ l_sdict a = l_sdict b /\ l_nc a = l_nc b /\ l_ns a = l_ns b /\
+  l_cinfo a = l_cinfo b /\ l_sinfo a = l_sinfo b /\ l_cregs a = l_cregs b /\ l_sregs a = l_sregs b /\
+  l_gcl a = l_gcl b /\ l_gsl a = l_gsl b /\ l_used a = l_used b.
+Proof. unfold lsame, with_q. intros [= H1 H2 H3 H4 H5 H6 H7 H8 H9 H10 H11 H12]. repeat split; assumption. Qed.
+
+Lemma relf_frame ss xs ss' xs' : RelF ss xs -> lsame (s_l ss') (s_l ss) ->
   base xs' = base xs -> cls xs' = cls xs -> sls xs' = sls xs -> gcl xs' = gcl xs -> gsl xs' = gsl xs ->
   wbs xs' = wbs xs -> wcs xs' = wcs xs ->
   s_cmdq ss' = map cmd_pair (cmds xs') -> NoDup (map cmd_w (cmds xs')) ->
@@ -486,15 +544,17 @@ Lemma relf_frame ss xs ss' xs' : RelF ss xs -> s_l ss' = s_l ss ->
   (forall o w ok, In (CmdC o w ok) (cmds xs') -> o < l_nc (s_l ss)) ->
   (forall wr, In wr (s_open ss') <-> rec_of xs' wr) -> NoDup (map w_id (s_open ss')) ->
   (forall w, (countN w (holders xs') <= 1)%nat) -> (forall w, In w (holders xs') -> In w (l_used (s_l ss))) ->
+  qinv (s_l ss') (cmds xs') ->
   RelF ss' xs'.
 Proof.
-  intros Q El Fb F1 F2 F3 F4 F5 F6 P1 P2 P3 P4 P5 P6 P7 P8 P9. destruct Q.
-  constructor; rewrite ?El; auto.
+  intros Q El Fb F1 F2 F3 F4 F5 F6 P1 P2 P3 P4 P5 P6 P7 P8 P9 P10. destruct Q.
+  destruct (lsame_fields _ _ El) as [L1 [L2 [L3 [L4 [L5 [L6 [L7 [L8 [L9 [L10 [L11 L12]]]]]]]]]]].
+  constructor; rewrite ?L2, ?L4, ?L12; auto.
   - apply (Rel_frame (s_l ss) _ xs xs' f_rel0); auto.
-  - intros o c G. rewrite Fb in G. destruct (f_info0 o c G) as [I J]. split; [|exact J].
-    apply (info_ok_ext ss ss' xs xs'); auto; now rewrite El.
-  - intros o x G. rewrite Fb in G. apply (sinfo_ok_ext ss ss'); auto; now rewrite El.
-  - intros o Ho. rewrite F5, F6. now apply f_fresh0.
+  - intros o c G. rewrite Fb in G. destruct (f_info0 o c G) as [I J]. split; [|now rewrite L6].
+    apply (info_ok_ext ss ss' xs xs'); auto.
+  - intros o x G. rewrite Fb in G. apply (sinfo_ok_ext ss ss'); auto.
+  - intros o Ho. rewrite F5, F6, L6. now apply f_fresh0.
 Qed.
 
 Definition setp (x : wait) : wait := mkw (w_id x) (w_kind x) (w_circ x) (w_obj x) (w_gone_seen x) false.
@@ -572,19 +632,33 @@ Lemma sitems_tset xs' xs o v o' : sclosing xs' = tset (sclosing xs) o v ->
   sitems xs' o' = if o =? o' then items_holders v else sitems xs o'.
 Proof. intros E. unfold sitems. rewrite E, tget_tset. now destruct (o =? o'). Qed.
 
-Lemma relf_ack ss xs : RelF ss xs ->
+Lemma relf_ack ss xs ls' : RelF ss xs -> lstep (s_l ss) OAck = Some ls' ->
   exists xs' es ss', x_op xs OAck = Some (xs', es) /\ spec_op ss OAck es = Some ss' /\ RelF ss' xs'.
 Proof.
-  intros Q. pose proof (f_cmdq _ _ Q) as Eq. pose proof (f_cmd_nd _ _ Q) as Nd.
+  intros Q L0. pose proof L0 as L. cbn [lstep] in L. destruct (l_nb (s_l ss) =? 0) eqn:Hnb; [|discriminate].
+  apply N.eqb_eq in Hnb. injection L as <-. pose proof (f_q _ _ Q) as Fq.
+  set (ls1 := with_q (s_l ss) (l_nb (s_l ss)) (l_ncl (s_l ss) - 1)) in *.
+  pose proof (f_cmdq _ _ Q) as Eq. pose proof (f_cmd_nd _ _ Q) as Nd.
   destruct (cmds xs) as [|c q] eqn:Ec.
-  - exists xs, [], {| s_l := s_l ss; s_open := s_open ss; s_cmdq := [] |}.
+  - exists xs, [], {| s_l := ls1; s_open := s_open ss; s_cmdq := [] |}.
     split; [cbn [x_op]; now rewrite Ec|]. split.
-    + unfold spec_op. cbn [lstep]. unfold spec_ack. now rewrite Eq.
-    + destruct ss as [l op cq]. cbn in *. subst cq. exact Q.
+    + unfold spec_op. rewrite L0. unfold spec_ack. now rewrite Eq.
+    + apply (relf_frame ss xs _ xs Q); try reflexivity; cbn [s_l s_open s_cmdq]; rewrite ?Ec.
+      * reflexivity.
+      * constructor.
+      * intros c [].
+      * intros o w ok [].
+      * intros o w ok [].
+      * exact (f_open _ _ Q).
+      * exact (f_open_nd _ _ Q).
+      * exact (f_hold_cnt _ _ Q).
+      * exact (f_hold_used _ _ Q).
+      * now apply qinv_empty.
   - cbn [map] in Eq, Nd. inversion Nd as [|? ? Hn Hd]; subst.
     assert (NotQ : forall c', In c' q -> cmd_w c' <> cmd_w c).
     { intros c' Hc' E. apply Hn. rewrite <- E. now apply in_map. }
-    destruct c as [o w ok|o w ok]; cbn [cmd_pair cmd_w fst] in *.
+    assert (Hb : is_b c = false) by (apply (qinv_no_b _ _ Fq Hnb); now left).
+    destruct c as [o w ok|o w ok|w]; cbn [cmd_pair cmd_w fst] in *; [| |discriminate Hb].
     + (* CLOSECIRCUIT answered *)
       set (wr0 := mkw w KClose true o (negb (cpres xs o)) true).
       assert (H0 : In wr0 (s_open ss)) by (apply (f_open _ _ Q); apply (RA xs w o ok); rewrite Ec; now left).
@@ -598,9 +672,9 @@ Proof.
                 exists xs' es ss', x_op xs OAck = Some (xs', es) /\ spec_op ss OAck es = Some ss' /\ RelF ss' xs').
       { intros r X D.
         destruct (hold_step xs OAck xs2 [NDone w r] (l_used (s_l ss)) X (f_hold_cnt _ _ Q) (f_hold_used _ _ Q)) as [HC HU]; [intros ? []|].
-        exists xs2, [NDone w r], {| s_l := s_l ss; s_open := ack_open [(w, r)] w (s_open ss); s_cmdq := map cmd_pair q |}.
+        exists xs2, [NDone w r], {| s_l := ls1; s_open := ack_open [(w, r)] w (s_open ss); s_cmdq := map cmd_pair q |}.
         split; [exact X|]. split.
-        - unfold spec_op. cbn [lstep]. unfold spec_ack. rewrite Eq, Mine, D. reflexivity.
+        - unfold spec_op. rewrite L0. unfold spec_ack. rewrite Eq, Mine, D. reflexivity.
         - apply (relf_frame ss xs _ xs2 Q); try reflexivity; cbn [s_l s_open s_cmdq xs2 cmds].
           + exact Hd.
           + intros c Hc. apply (f_cmd_used _ _ Q). rewrite Ec. now right.
@@ -634,7 +708,8 @@ Proof.
                  f_equal. unfold has_cmds. rewrite Ec. reflexivity.
           + rewrite ack_open_ids. apply drop_done_ids_nodup. exact (f_open_nd _ _ Q).
           + exact HC.
-          + exact HU. }
+          + exact HU.
+          + exact (qinv_pop_close _ _ _ Fq Hb). }
       destruct ok.
       * destruct (tfind (cclosing xs) o) as [items|] eqn:Ef.
         -- (* the command Deferred is chained to the _closing_deferred *)
@@ -643,9 +718,9 @@ Proof.
                           cclosing := tset (cclosing xs) o (items ++ [CbChain w]); sclosing := sclosing xs; cmds := q |}).
            assert (X : x_op xs OAck = Some (xs', [])) by (cbn [x_op]; now rewrite Ec, Ef).
            destruct (hold_step xs OAck xs' [] (l_used (s_l ss)) X (f_hold_cnt _ _ Q) (f_hold_used _ _ Q)) as [HC HU]; [intros ? []|].
-           exists xs', [], {| s_l := s_l ss; s_open := ack_open [] w (s_open ss); s_cmdq := map cmd_pair q |}.
+           exists xs', [], {| s_l := ls1; s_open := ack_open [] w (s_open ss); s_cmdq := map cmd_pair q |}.
            split; [exact X|]. split.
-           ++ unfold spec_op. cbn [lstep]. unfold spec_ack. rewrite Eq, Mine. unfold wr0. cbn [map concat mkw w_gone_seen app]. rewrite Ep. reflexivity.
+           ++ unfold spec_op. rewrite L0. unfold spec_ack. rewrite Eq, Mine. unfold wr0. cbn [map concat mkw w_gone_seen app]. rewrite Ep. reflexivity.
            ++ assert (CP : forall o', cpres xs' o' = cpres xs o') by (intros o'; apply (cpres_tset xs' xs o _ o' eq_refl Ep)).
               assert (CI : forall o', citems xs' o' = if o =? o' then citems xs o ++ [w] else citems xs o').
               { intros o'. rewrite (citems_tset xs' xs o _ o' eq_refl), items_holders_app.
@@ -695,6 +770,7 @@ Proof.
               ** rewrite ack_open_ids. apply drop_done_ids_nodup. exact (f_open_nd _ _ Q).
               ** exact HC.
               ** exact HU.
+              ** exact (qinv_pop_close _ _ _ Fq Hb).
         -- (* the _closing_deferred is gone already: the command Deferred is what the caller has *)
            assert (Ep : cpres xs o = false) by (unfold cpres; now rewrite Ef).
            apply (Fin WOkNone); [cbn [x_op]; now rewrite Ec, Ef|].
@@ -720,7 +796,7 @@ Proof.
         rewrite items_holders_app, (tget_of_tfind [] _ _ _ Ef). cbn. now rewrite app_nil_r. }
       assert (Hw : has_cmds xs' w = false).
       { unfold has_cmds. cbn [xs' cmds]. apply not_true_is_false. intros H. apply existsb_exists in H as [c' [Hc' Hm]].
-        destruct c' as [? ? ?|o1 w1 ok1]; [discriminate|]. apply N.eqb_eq in Hm. apply (NotQ _ Hc'). exact Hm. }
+        destruct c' as [? ? ?|o1 w1 ok1|?]; [discriminate| |discriminate]. apply N.eqb_eq in Hm. apply (NotQ _ Hc'). exact Hm. }
       assert (Hw' : forall w0, w0 <> w -> has_cmds xs w0 = has_cmds xs' w0).
       { intros w0 E. unfold has_cmds. rewrite Ec. cbn [existsb xs' cmds]. apply not_eq_sym in E. apply N.eqb_neq in E. now rewrite E. }
       assert (Must : concat (map (fun x : wait => if w_gone_seen x then [(w, if ok then WantOk else WantAny)] else [])
@@ -728,9 +804,9 @@ Proof.
       { apply concat_map_nil. intros x Hx. apply filter_In in Hx as [Hx Ex]. apply N.eqb_eq in Ex. apply (f_open _ _ Q) in Hx.
         destruct Hx as [w0 o0 H|w0 o0 H|w0 o0 ok0 H|w0 o0 H|w0 o0 H]; try reflexivity. cbn [mkw w_id] in Ex. subst w0.
         exfalso. rewrite Ec in H. destruct H as [H|H]; [discriminate|]. now apply (NotQ _ H). }
-      exists xs', [], {| s_l := s_l ss; s_open := ack_open [] w (s_open ss); s_cmdq := map cmd_pair q |}.
+      exists xs', [], {| s_l := ls1; s_open := ack_open [] w (s_open ss); s_cmdq := map cmd_pair q |}.
       split; [exact X|]. split.
-      * unfold spec_op. cbn [lstep]. unfold spec_ack. rewrite Eq, Must. reflexivity.
+      * unfold spec_op. rewrite L0. unfold spec_ack. rewrite Eq, Must. reflexivity.
       * apply (relf_frame ss xs _ xs' Q); try reflexivity; cbn [s_l s_open s_cmdq xs' cmds].
         -- exact Hd.
         -- intros c Hc. apply (f_cmd_used _ _ Q). rewrite Ec. now right.
@@ -765,6 +841,7 @@ Proof.
         -- rewrite ack_open_ids. apply drop_done_ids_nodup. exact (f_open_nd _ _ Q).
         -- exact HC.
         -- exact HU.
+        -- exact (qinv_pop_close _ _ _ Fq Hb).
 Qed.
 
 (* ---------------------------------------------------------------- close requests *)
@@ -780,8 +857,18 @@ Proof.
   { intros c Hc E. apply Hfr. rewrite <- E. now apply (f_cmd_used _ _ Q). }
   split; [exact A|]. split; [exact B|]. split.
   - unfold has_cmds. apply not_true_is_false. intros H. apply existsb_exists in H as [c [Hc Hm]].
-    destruct c as [? ? ?|o1 w1 ok1]; [discriminate|]. apply N.eqb_eq in Hm. apply (B _ Hc). exact Hm.
+    destruct c as [? ? ?|o1 w1 ok1|?]; [discriminate| |discriminate]. apply N.eqb_eq in Hm. apply (B _ Hc). exact Hm.
   - intros Hi. apply in_map_iff in Hi as [wr [E Hwr]]. apply (A wr); [now apply (f_open _ _ Q) | exact E].
+Qed.
+
+Lemma relf_used_close ss xs w : RelF ss xs -> l_nb (s_l ss) = 0 ->
+  RelF {| s_l := use_q (s_l ss) w (l_nb (s_l ss)) (l_ncl (s_l ss) + 1); s_open := s_open ss; s_cmdq := s_cmdq ss |} xs.
+Proof.
+  intros Q Hnb. pose proof (qinv_more_close _ _ w (f_q _ _ Q) Hnb) as Fq.
+  destruct Q. constructor; cbn [s_l s_open s_cmdq use_q l_nc l_cinfo l_cdict l_used]; auto.
+  - apply (Rel_frame (s_l ss) _ xs xs f_rel0); reflexivity.
+  - intros c H. right. now apply f_cmd_used0.
+  - intros w' H. right. now apply f_hold_used0.
 Qed.
 
 Lemma cmds_ok_one k i : cmds_ok k i [NCmd k i] = true.
@@ -790,15 +877,16 @@ Proof. unfold cmds_ok. cbn. now rewrite !N.eqb_refl. Qed.
 Lemma relf_cclose ss xs o w ls' : RelF ss xs -> lstep (s_l ss) (OCClose o w) = Some ls' ->
   exists xs' es ss', x_op xs (OCClose o w) = Some (xs', es) /\ spec_op ss (OCClose o w) es = Some ss' /\ RelF ss' xs'.
 Proof.
-  intros Q L. pose proof L as L0. cbn [lstep] in L.
+  intros Q L. pose proof L as L0. cbn [lstep] in L; unfold lstep_ev in L.
   destruct (N.ltb_spec o (l_nc (s_l ss))) as [Hlt|]; cbn [andb] in L; [|discriminate].
-  destruct (memN w (l_used (s_l ss))) eqn:Hfr; cbn [negb] in L; [discriminate|]. injection L as <-.
-  fold (use_w (s_l ss) w) in L0 |- *.
+  destruct (memN w (l_used (s_l ss))) eqn:Hfr; cbn [negb andb] in L; [discriminate|].
+  destruct (l_nb (s_l ss) =? 0) eqn:Hnb; [|discriminate]. apply N.eqb_eq in Hnb. injection L as <-.
+  set (lsc := use_q (s_l ss) w (l_nb (s_l ss)) (l_ncl (s_l ss) + 1)) in *.
   pose proof (f_rel _ _ Q) as R.
   destruct (get_c o (base xs)) as [c|] eqn:G; [|exfalso; now apply (r_cex _ _ R o Hlt)].
   destruct (f_info _ _ Q o c G) as [[I1 [I2 [I3 I4]]] J].
   destruct (fresh_facts ss xs w Q Hfr) as [FrR [FrC [FrH FrO]]].
-  pose proof (relf_used ss xs w Q) as Qu.
+  pose proof (relf_used_close ss xs w Q Hnb) as Qu. fold lsc in Qu.
   unfold spec_op. rewrite L0. unfold spec_request.
   cbn [s_l]. set (info := tget (info0 0) (l_cinfo (s_l ss)) o) in *. set (al := alive (l_cdict (s_l ss)) o) in *.
   assert (Now : term_c c -> exists xs' es ss', x_op xs (OCClose o w) = Some (xs', es) /\
@@ -809,9 +897,9 @@ Proof.
                       if memN w (map fst (dones es)) then s_open ss
                       else s_open ss ++ [{| w_id := w; w_kind := KClose; w_circ := true; w_obj := o; w_gone_seen := negb al; w_pending_cmd := has_cmd es |}],
                       if has_cmd es then s_cmdq ss ++ [(w, kmem fst (oi_id info) (l_cdict (s_l ss)))] else s_cmdq ss) in
-                   if ok then Some {| s_l := use_w (s_l ss) w; s_open := open'; s_cmdq := cmdq' |} else None) = Some ss' /\ RelF ss' xs').
+                   if ok then Some {| s_l := lsc; s_open := open'; s_cmdq := cmdq' |} else None) = Some ss' /\ RelF ss' xs').
   { intros T. assert (Ha : al = false) by (now apply I2).
-    exists xs, [NDone w WOkNone], {| s_l := use_w (s_l ss) w; s_open := s_open ss; s_cmdq := s_cmdq ss |}.
+    exists xs, [NDone w WOkNone], {| s_l := lsc; s_open := s_open ss; s_cmdq := s_cmdq ss |}.
     split; [cbn [x_op]; rewrite G; destruct T as [-> | ->]; reflexivity|]. split; [|exact Qu].
     rewrite Ha. cbn [has_cmd existsb negb andb orb]. rewrite done_ok_single.
     cbn [res_ok no_notifs circ_listeners_called stream_listeners_called map concat raised existsb negb andb orb dones fst memN app cmds_ok].
@@ -840,7 +928,7 @@ Proof.
                    cclosing := tset (cclosing xs) o (items ++ [CbWaiter w]); sclosing := sclosing xs; cmds := cmds xs |}) in *.
     destruct (hold_step xs _ xs' [] (l_used (s_l ss)) XB (f_hold_cnt _ _ Q) (f_hold_used _ _ Q)) as [HC HU].
     { cbn [req_id]. intros w' [<-|[]]. now apply memN_false. }
-    exists xs', [], {| s_l := use_w (s_l ss) w; s_open := s_open ss ++ [mkw w KClose true o false false]; s_cmdq := s_cmdq ss |}.
+    exists xs', [], {| s_l := lsc; s_open := s_open ss ++ [mkw w KClose true o false false]; s_cmdq := s_cmdq ss |}.
     split; [exact XB|]. split; [reflexivity|].
     assert (CP : forall o', cpres xs' o' = cpres xs o') by (intros o'; apply (cpres_tset xs' xs o _ o' eq_refl Ep)).
     assert (CI : forall o', citems xs' o' = if o =? o' then citems xs o ++ [w] else citems xs o').
@@ -872,6 +960,7 @@ Proof.
     + rewrite map_app. cbn [map mkw w_id]. apply NoDup_app_end; [exact (f_open_nd _ _ Q) | exact FrO].
     + exact HC.
     + intros w' H. apply HU in H. exact H.
+    + exact (f_q _ _ Qu).
   - (* the first close: CLOSECIRCUIT is submitted *)
     assert (Ep : cpres xs o = false) by (unfold cpres; now rewrite Ef).
     set (okm := kmem fst (c_id c) (circuits (base xs))) in *.
@@ -880,7 +969,7 @@ Proof.
     destruct (hold_step xs _ xs' _ (l_used (s_l ss)) XB (f_hold_cnt _ _ Q) (f_hold_used _ _ Q)) as [HC HU].
     { cbn [req_id]. intros w' [<-|[]]. now apply memN_false. }
     exists xs', [NCmd 0 (c_id c)],
-      {| s_l := use_w (s_l ss) w; s_open := s_open ss ++ [mkw w KClose true o false true]; s_cmdq := s_cmdq ss ++ [(w, okm)] |}.
+      {| s_l := lsc; s_open := s_open ss ++ [mkw w KClose true o false true]; s_cmdq := s_cmdq ss ++ [(w, okm)] |}.
     split; [exact XB|]. split.
     { rewrite J, cmds_ok_one. unfold okm. rewrite (r_cdict _ _ R). reflexivity. }
     assert (CP : forall o', cpres xs' o' = (o =? o') || cpres xs o').
@@ -890,7 +979,7 @@ Proof.
       unfold citems. rewrite (tfind_tget []), Ef. reflexivity. }
     assert (NoCmd : forall w0 ok0, ~ In (CmdC o w0 ok0) (cmds xs)).
     { intros w0 ok0 Hc. destruct (f_cmd_gone _ _ Q o w0 ok0 Hc) as [F|F]; [congruence|]. fold al in F. congruence. }
-    apply (relf_frame _ xs _ xs' Qu); try reflexivity; cbn [s_l s_open s_cmdq xs' cmds use_w l_used l_cdict l_nc].
+    apply (relf_frame _ xs _ xs' Qu); try reflexivity; cbn [s_l s_open s_cmdq xs' cmds lsc use_w use_q l_used l_cdict l_nc].
     + rewrite map_app, (f_cmdq _ _ Q). reflexivity.
     + rewrite map_app. cbn [map cmd_w cmd_pair fst]. apply NoDup_app_end; [exact (f_cmd_nd _ _ Q)|].
       intros Hi. apply in_map_iff in Hi as [c0 [E0 H0]]. now apply (FrC c0 H0).
@@ -927,20 +1016,22 @@ Proof.
     + rewrite map_app. cbn [map mkw w_id]. apply NoDup_app_end; [exact (f_open_nd _ _ Q) | exact FrO].
     + exact HC.
     + intros w' H. apply HU in H. exact H.
+    + apply (qinv_push_close _ _ _ _ (f_q _ _ Q)); [reflexivity | exact Hnb].
 Qed.
 
 Lemma relf_sclose ss xs o w ls' : RelF ss xs -> lstep (s_l ss) (OSClose o w) = Some ls' ->
   exists xs' es ss', x_op xs (OSClose o w) = Some (xs', es) /\ spec_op ss (OSClose o w) es = Some ss' /\ RelF ss' xs'.
 Proof.
-  intros Q L. pose proof L as L0. cbn [lstep] in L.
+  intros Q L. pose proof L as L0. cbn [lstep] in L; unfold lstep_ev in L.
   destruct (N.ltb_spec o (l_ns (s_l ss))) as [Hlt|]; cbn [andb] in L; [|discriminate].
-  destruct (memN w (l_used (s_l ss))) eqn:Hfr; cbn [negb] in L; [discriminate|]. injection L as <-.
-  fold (use_w (s_l ss) w) in L0 |- *.
+  destruct (memN w (l_used (s_l ss))) eqn:Hfr; cbn [negb andb] in L; [discriminate|].
+  destruct (l_nb (s_l ss) =? 0) eqn:Hnb; [|discriminate]. apply N.eqb_eq in Hnb. injection L as <-.
+  set (lsc := use_q (s_l ss) w (l_nb (s_l ss)) (l_ncl (s_l ss) + 1)) in *.
   pose proof (f_rel _ _ Q) as R.
   destruct (get_s o (base xs)) as [x|] eqn:G; [|exfalso; now apply (r_sex _ _ R o Hlt)].
   destruct (f_sinfo _ _ Q o x G) as [J I2].
   destruct (fresh_facts ss xs w Q Hfr) as [FrR [FrC [FrH FrO]]].
-  pose proof (relf_used ss xs w Q) as Qu.
+  pose proof (relf_used_close ss xs w Q Hnb) as Qu. fold lsc in Qu.
   unfold spec_op. rewrite L0. unfold spec_request.
   cbn [s_l]. set (info := tget (info0 0) (l_sinfo (s_l ss)) o) in *. set (al := alive (l_sdict (s_l ss)) o) in *.
   assert (Now : term_s x -> exists xs' es ss', x_op xs (OSClose o w) = Some (xs', es) /\
@@ -951,9 +1042,9 @@ Proof.
                       if memN w (map fst (dones es)) then s_open ss
                       else s_open ss ++ [{| w_id := w; w_kind := KClose; w_circ := false; w_obj := o; w_gone_seen := negb al; w_pending_cmd := has_cmd es |}],
                       if has_cmd es then s_cmdq ss ++ [(w, kmem fst (oi_id info) (l_sdict (s_l ss)))] else s_cmdq ss) in
-                   if ok then Some {| s_l := use_w (s_l ss) w; s_open := open'; s_cmdq := cmdq' |} else None) = Some ss' /\ RelF ss' xs').
+                   if ok then Some {| s_l := lsc; s_open := open'; s_cmdq := cmdq' |} else None) = Some ss' /\ RelF ss' xs').
   { intros T. assert (Ha : al = false) by (now apply I2).
-    exists xs, [NDone w (WOkS o)], {| s_l := use_w (s_l ss) w; s_open := s_open ss; s_cmdq := s_cmdq ss |}.
+    exists xs, [NDone w (WOkS o)], {| s_l := lsc; s_open := s_open ss; s_cmdq := s_cmdq ss |}.
     split; [cbn [x_op]; rewrite G; destruct T as [-> | ->]; reflexivity|]. split; [|exact Qu].
     rewrite Ha. cbn [has_cmd existsb negb andb orb]. rewrite done_ok_single.
     cbn [res_ok no_notifs circ_listeners_called stream_listeners_called map concat raised existsb negb andb orb dones fst memN app cmds_ok].
@@ -980,7 +1071,7 @@ Proof.
                    cclosing := cclosing xs; sclosing := tset (sclosing xs) o (items ++ [CbWaiter w]); cmds := cmds xs |}) in *.
     destruct (hold_step xs _ xs' [] (l_used (s_l ss)) XB (f_hold_cnt _ _ Q) (f_hold_used _ _ Q)) as [HC HU].
     { cbn [req_id]. intros w' [<-|[]]. now apply memN_false. }
-    exists xs', [], {| s_l := use_w (s_l ss) w; s_open := s_open ss ++ [mkw w KClose false o false false]; s_cmdq := s_cmdq ss |}.
+    exists xs', [], {| s_l := lsc; s_open := s_open ss ++ [mkw w KClose false o false false]; s_cmdq := s_cmdq ss |}.
     split; [exact XB|]. split; [reflexivity|].
     assert (SI : forall o', sitems xs' o' = if o =? o' then sitems xs o ++ [w] else sitems xs o').
     { intros o'. rewrite (sitems_tset xs' xs o _ o' eq_refl), items_holders_app.
@@ -1013,13 +1104,14 @@ Proof.
     + rewrite map_app. cbn [map mkw w_id]. apply NoDup_app_end; [exact (f_open_nd _ _ Q) | exact FrO].
     + exact HC.
     + intros w' H. apply HU in H. exact H.
+    + exact (f_q _ _ Qu).
   - set (okm := kmem fst (s_id x) (streams (base xs))) in *.
     set (xs' := {| base := base xs; cls := cls xs; sls := sls xs; gcl := gcl xs; gsl := gsl xs; wbs := wbs xs; wcs := wcs xs;
                    cclosing := cclosing xs; sclosing := tset (sclosing xs) o [CbWaiter w]; cmds := cmds xs ++ [CmdS o w okm] |}) in *.
     destruct (hold_step xs _ xs' _ (l_used (s_l ss)) XB (f_hold_cnt _ _ Q) (f_hold_used _ _ Q)) as [HC HU].
     { cbn [req_id]. intros w' [<-|[]]. now apply memN_false. }
     exists xs', [NCmd 1 (s_id x)],
-      {| s_l := use_w (s_l ss) w; s_open := s_open ss ++ [mkw w KClose false o false true]; s_cmdq := s_cmdq ss ++ [(w, okm)] |}.
+      {| s_l := lsc; s_open := s_open ss ++ [mkw w KClose false o false true]; s_cmdq := s_cmdq ss ++ [(w, okm)] |}.
     split; [exact XB|]. split.
     { rewrite J, cmds_ok_one. unfold okm. rewrite (r_sdict _ _ R). reflexivity. }
     assert (SI : forall o', sitems xs' o' = if o =? o' then sitems xs o ++ [w] else sitems xs o').
@@ -1028,7 +1120,7 @@ Proof.
       rewrite Ei. reflexivity. }
     assert (HS : forall w0, has_cmds xs' w0 = has_cmds xs w0 || (w =? w0)).
     { intros w0. unfold has_cmds. cbn [xs' cmds]. rewrite existsb_app. cbn [existsb]. now rewrite orb_false_r. }
-    apply (relf_frame _ xs _ xs' Qu); try reflexivity; cbn [s_l s_open s_cmdq xs' cmds use_w l_used l_cdict l_nc].
+    apply (relf_frame _ xs _ xs' Qu); try reflexivity; cbn [s_l s_open s_cmdq xs' cmds lsc use_w use_q l_used l_cdict l_nc].
     + rewrite map_app, (f_cmdq _ _ Q). reflexivity.
     + rewrite map_app. cbn [map cmd_w cmd_pair fst]. apply NoDup_app_end; [exact (f_cmd_nd _ _ Q)|].
       intros Hi. apply in_map_iff in Hi as [c0 [E0 H0]]. now apply (FrC c0 H0).
@@ -1062,6 +1154,7 @@ Proof.
     + rewrite map_app. cbn [map mkw w_id]. apply NoDup_app_end; [exact (f_open_nd _ _ Q) | exact FrO].
     + exact HC.
     + intros w' H. apply HU in H. exact H.
+    + apply (qinv_push_close _ _ _ _ (f_q _ _ Q)); [reflexivity | exact Hnb].
 Qed.
 
 (* ---------------------------------------------------------------- the tables of _closing_deferred have one entry per object *)
@@ -1090,7 +1183,7 @@ Definition KN (xs : xstate) : Prop := NoDup (map fst (cclosing xs)) /\ NoDup (ma
 Lemma keys_step xs o xs' es : x_op xs o = Some (xs', es) -> KN xs -> KN xs'.
 Proof.
   unfold KN. intros X [A B].
-  destruct o as [e|l|l|o1 l|o1 l|o1 l|o1 l|o1 wt|o1 wt|o1 wt|o1 wt|]; cbn [x_op] in X.
+  destruct o as [e|l|l|o1 l|o1 l|o1 l|o1 l|o1 wt|o1 wt|o1 wt|o1 wt| |rs wt|id|]; cbn [x_op] in X.
   - destruct e as [id st path kw|id st cid host port kw].
     + destruct (x_circ_tables _ _ _ _ _ _ _ X) as [E1 [E2 E3]]. rewrite E1, E3. split; [|exact B].
       destruct (c_terminal st); [now apply tdel_keys_NoDup | exact A].
@@ -1114,11 +1207,16 @@ Proof.
   - destruct (get_s o1 (base xs)) as [x|]; [|discriminate].
     destruct (s_state x) as [[]|]; try (injection X as <- <-; now split);
       destruct (tfind (sclosing xs) o1); injection X as <- <-; cbn [cclosing sclosing]; (split; [exact A | now apply tset_keys_NoDup]).
-  - destruct (cmds xs) as [|[o1 w ok|o1 w ok] q]; [injection X as <- <-; now split| |].
+  - destruct (cmds xs) as [|[o1 w ok|o1 w ok|w] q]; [injection X as <- <-; now split| | |discriminate].
     + destruct ok; [destruct (tfind (cclosing xs) o1)|]; injection X as <- <-; cbn [cclosing sclosing];
         (split; [try exact A; now apply tset_keys_NoDup | exact B]).
     + injection X as <- <-. cbn [cclosing sclosing]. split; [exact A|].
       destruct ok; [|exact B]. destruct (tfind (sclosing xs) o1); [now apply tset_keys_NoDup | exact B].
+  - injection X as <- <-. now split.
+  - destruct (cmds xs) as [|[o1 w ok|o1 w ok|w] q]; try discriminate.
+    destruct (x_circ xs id CExtended [] []) as [[s1 es1]|] eqn:X1; [|discriminate]. injection X as <- <-.
+    destruct (x_circ_tables _ _ _ _ _ _ _ X1) as [E1 [E2 E3]]. cbn [cclosing sclosing c_terminal] in *. rewrite E1, E3. now split.
+  - destruct (cmds xs) as [|[o1 w ok|o1 w ok|w] q]; try discriminate. injection X as <- <-. now split.
 Qed.
 
 Lemma tfind_tdel_self {V} (t : list (N * V)) k : NoDup (map fst t) -> tfind (tdel t k) k = None.
@@ -1177,7 +1275,7 @@ Proof.
   exists xs', es, {| s_l := ls'; s_open := open'; s_cmdq := s_cmdq ss |}.
   split; [exact X|]. split.
   - unfold spec_op. rewrite L. unfold spec_event. cbn [s_l]. rewrite Eloc. fold mine. rewrite Nk, DK, Hc, Hr. reflexivity.
-  - cbn [lstep] in L. destruct (negb (ev_legal (l_tv (s_l ss)) (EStream id st cid host port kw))); [discriminate|].
+  - cbn [lstep] in L; unfold lstep_ev in L. destruct (negb (ev_legal (l_tv (s_l ss)) (EStream id st cid host port kw))); [discriminate|].
     rewrite Eloc in L. injection L as <-.
     destruct (stream_event_shape (base xs) id st cid host port kw (base xs') W Eb) as [[Sc1 [Sc2 Sc3]] [Sh2 [Sh3 [[x' [Gx' Ix']] Sh6]]]].
     destruct (stream_event_state (base xs) id st cid host port kw (base xs') W Eb) as [x2 [Gx2 Sx2]].
@@ -1210,6 +1308,7 @@ Proof.
     assert (HS : forall w0, has_cmds xs' w0 = has_cmds xs w0) by (intros w0; unfold has_cmds; now rewrite F3).
     assert (CP : forall o', cpres xs' o' = cpres xs o') by (intros o'; unfold cpres; now rewrite F2).
     constructor; cbn [s_l s_open s_cmdq l_nc l_cinfo l_cdict l_sdict l_sinfo l_used].
+    + rewrite F3. exact (f_q _ _ Q).
     + exact R'.
     + rewrite F3. exact (f_cmdq _ _ Q).
     + rewrite F3. exact (f_cmd_nd _ _ Q).
@@ -1447,7 +1546,7 @@ Proof.
   - destruct (circ_event_shape (base xs) id st path kw (base xs') W Eb) as [Sh1 [Sh2 [Sh3 [Sh4 [[c' [Gc' [Ic' Sc']]] Sh6]]]]].
     change (get_c o (base xs') = Some c') in Gc'.
     change (forall o', o' <> o -> get_c o' (base xs') = get_c o' (base xs)) in Sh6.
-    pose proof L as L1. cbn [lstep] in L1.
+    pose proof L as L1. cbn [lstep] in L1; unfold lstep_ev in L1.
     destruct (negb (ev_legal (l_tv (s_l ss)) (ECirc id st path kw))); [discriminate|].
     rewrite Eloc in L1. injection L1 as <-.
     set (d1 := if xc_first xs id then l_cdict (s_l ss) ++ [(id, o)] else l_cdict (s_l ss)) in *.
@@ -1500,6 +1599,7 @@ Proof.
       destruct (wf_clive _ W _ Hdict) as [c0 [G0 _]]. cbn [snd] in G0. pose proof (get_c_bound _ _ _ W G0).
       rewrite (r_nc _ _ R) in H. exact H. }
     constructor; cbn [s_l s_open s_cmdq l_nc l_cinfo l_cdict l_sdict l_sinfo l_used].
+    + rewrite F3. exact (f_q _ _ Q).
     + exact R'.
     + rewrite F3. exact (f_cmdq _ _ Q).
     + rewrite F3. exact (f_cmd_nd _ _ Q).
@@ -1628,11 +1728,167 @@ Proof.
     + exact HU.
 Qed.
 
+(* ---------------------------------------------------------------- build_circuit() and Tor's answer *)
+Lemma rec_of_cmds xs xs' wr : wbs xs' = wbs xs -> wcs xs' = wcs xs -> cclosing xs' = cclosing xs -> sclosing xs' = sclosing xs ->
+  (forall o w ok, In (CmdC o w ok) (cmds xs') <-> In (CmdC o w ok) (cmds xs)) ->
+  (forall w, has_cmds xs' w = has_cmds xs w) -> rec_of xs' wr <-> rec_of xs wr.
+Proof.
+  intros A B C D E F.
+  assert (G : forall a b, wbs b = wbs a -> wcs b = wcs a -> cclosing b = cclosing a -> sclosing b = sclosing a ->
+              (forall o w ok, In (CmdC o w ok) (cmds a) -> In (CmdC o w ok) (cmds b)) ->
+              (forall w, has_cmds b w = has_cmds a w) -> rec_of a wr -> rec_of b wr).
+  { intros a b A' B' C' D' E' F' H. destruct H as [w o H|w o H|w o ok H|w o H|w o H].
+    - apply RB. now rewrite A'.
+    - apply RC. now rewrite B'.
+    - replace (cpres a o) with (cpres b o) by (unfold cpres; now rewrite C'). apply (RA b w o ok). now apply E'.
+    - apply RD. unfold citems. now rewrite C'.
+    - rewrite <- F'. apply RS. unfold sitems. now rewrite D'. }
+  split; apply G; auto; try (intros; now apply E).
+Qed.
+
+Lemma nev_eqb0_cmds k (l : list N) : list_eqb nev_eqb0 (map (NCmd k) l) (map (NCmd k) l) = true.
+Proof. induction l as [|x t IH]; cbn; [reflexivity|]. now rewrite !N.eqb_refl, IH. Qed.
+
+Lemma relf_build ss xs rs w ls' : RelF ss xs -> lstep (s_l ss) (OBuild rs w) = Some ls' ->
+  exists xs' es ss', x_op xs (OBuild rs w) = Some (xs', es) /\ spec_op ss (OBuild rs w) es = Some ss' /\ RelF ss' xs'.
+Proof.
+  intros Q L0. pose proof L0 as L. cbn [lstep] in L.
+  destruct (l_ncl (s_l ss) =? 0) eqn:Hncl; cbn [andb] in L; [|discriminate]. apply N.eqb_eq in Hncl.
+  destruct (memN w (l_used (s_l ss))) eqn:Hfr; cbn [negb] in L; [discriminate|]. injection L as <-.
+  set (lsb := use_q (s_l ss) w (l_nb (s_l ss) + 1) (l_ncl (s_l ss))) in *.
+  destruct (fresh_facts ss xs w Q Hfr) as [FrR [FrC [FrH FrO]]].
+  pose proof (relf_used ss xs w Q) as Qu.
+  set (xs' := {| base := base xs; cls := cls xs; sls := sls xs; gcl := gcl xs; gsl := gsl xs; wbs := wbs xs; wcs := wcs xs;
+                 cclosing := cclosing xs; sclosing := sclosing xs; cmds := cmds xs ++ [CmdB w] |}).
+  set (es := NCmd 2 (N.of_nat (length rs)) :: map (NCmd 3) rs).
+  assert (X : x_op xs (OBuild rs w) = Some (xs', es)) by reflexivity.
+  destruct (hold_step xs _ xs' es (l_used (s_l ss)) X (f_hold_cnt _ _ Q) (f_hold_used _ _ Q)) as [HC HU].
+  { cbn [req_id]. intros w' [<-|[]]. now apply memN_false. }
+  exists xs', es, {| s_l := lsb; s_open := s_open ss; s_cmdq := s_cmdq ss ++ [(w, true)] |}.
+  split; [exact X|]. split.
+  - unfold spec_op. rewrite L0. unfold spec_build, es. cbn [list_eqb nev_eqb0]. now rewrite !N.eqb_refl, nev_eqb0_cmds.
+  - apply (relf_frame _ xs _ xs' Qu); try reflexivity; cbn [s_l s_open s_cmdq xs' cmds use_w use_q l_used l_cdict l_nc].
+    + rewrite map_app, (f_cmdq _ _ Q). reflexivity.
+    + rewrite map_app. cbn [map cmd_w cmd_pair fst]. apply NoDup_app_end; [exact (f_cmd_nd _ _ Q)|].
+      intros Hi. apply in_map_iff in Hi as [c0 [E0 H0]]. now apply (FrC c0 H0).
+    + intros c0 Hc. apply in_app_or in Hc as [Hc|[<-|[]]]; [right; now apply (f_cmd_used _ _ Q) | now left].
+    + intros o' w' ok' Hc. apply in_app_or in Hc as [Hc|[Hc|[]]]; [|discriminate]. exact (f_cmd_gone _ _ Q o' w' ok' Hc).
+    + intros o' w' ok' Hc. apply in_app_or in Hc as [Hc|[Hc|[]]]; [|discriminate]. exact (f_cmd_ex _ _ Q o' w' ok' Hc).
+    + intros wr. rewrite (f_open _ _ Q). symmetry. apply rec_of_cmds; try reflexivity.
+      * intros o' w' ok'. cbn [xs' cmds]. rewrite in_app_iff. cbn [In]. split; [intros [H|[H|[]]]; [exact H | discriminate] | auto].
+      * intros w0. unfold has_cmds. cbn [xs' cmds]. rewrite existsb_app. cbn [existsb]. now rewrite !orb_false_r.
+    + exact (f_open_nd _ _ Q).
+    + exact HC.
+    + intros w' H. apply HU in H. exact H.
+    + exact (qinv_push_build _ _ w w (f_q _ _ Q) Hncl).
+Qed.
+
+Lemma relf_builderr ss xs ls' : RelF ss xs -> lstep (s_l ss) OBuildErr = Some ls' ->
+  exists xs' es ss', x_op xs OBuildErr = Some (xs', es) /\ spec_op ss OBuildErr es = Some ss' /\ RelF ss' xs'.
+Proof.
+  intros Q L0. pose proof L0 as L. cbn [lstep] in L.
+  destruct (N.ltb_spec 0 (l_nb (s_l ss))) as [Hnb|]; [|discriminate]. injection L as <-.
+  set (ls1 := with_q (s_l ss) (l_nb (s_l ss) - 1) (l_ncl (s_l ss))) in *.
+  destruct (qinv_head_b _ _ (f_q _ _ Q) Hnb) as [w [q Ec]].
+  pose proof (f_cmdq _ _ Q) as Eq. pose proof (f_cmd_nd _ _ Q) as Nd. rewrite Ec in Eq, Nd. cbn [map cmd_pair cmd_w fst] in Eq, Nd.
+  inversion Nd as [|? ? Hn Hd]; subst.
+  set (xs' := {| base := base xs; cls := cls xs; sls := sls xs; gcl := gcl xs; gsl := gsl xs; wbs := wbs xs; wcs := wcs xs;
+                 cclosing := cclosing xs; sclosing := sclosing xs; cmds := q |}).
+  assert (X : x_op xs OBuildErr = Some (xs', [NDone w (WFail 4 0 0)])) by (cbn [x_op]; now rewrite Ec).
+  destruct (hold_step xs _ xs' _ (l_used (s_l ss)) X (f_hold_cnt _ _ Q) (f_hold_used _ _ Q)) as [HC HU]; [intros ? []|].
+  exists xs', [NDone w (WFail 4 0 0)], {| s_l := ls1; s_open := s_open ss; s_cmdq := map cmd_pair q |}.
+  split; [exact X|]. split.
+  - unfold spec_op. rewrite L0. unfold spec_builderr. rewrite Eq, done_ok_single. reflexivity.
+  - apply (relf_frame ss xs _ xs' Q); try reflexivity; cbn [s_l s_open s_cmdq xs' cmds].
+    + exact Hd.
+    + intros c Hc. apply (f_cmd_used _ _ Q). rewrite Ec. now right.
+    + intros o' w' ok' Hc. apply (f_cmd_gone _ _ Q o' w' ok'). rewrite Ec. now right.
+    + intros o' w' ok' Hc. apply (f_cmd_ex _ _ Q o' w' ok'). rewrite Ec. now right.
+    + intros wr. rewrite (f_open _ _ Q). symmetry. apply rec_of_cmds; try reflexivity.
+      * intros o' w' ok'. cbn [xs' cmds]. rewrite Ec. cbn [In]. split; [auto | intros [H|H]; [discriminate | exact H]].
+      * intros w0. unfold has_cmds. cbn [xs' cmds]. rewrite Ec. reflexivity.
+    + exact (f_open_nd _ _ Q).
+    + exact HC.
+    + exact HU.
+    + pose proof (f_q _ _ Q) as Fq. rewrite Ec in Fq. exact (qinv_pop_build _ _ _ Fq).
+Qed.
+
+Lemma lstep_ev_q ls e l1 : lstep_ev ls e = Some l1 -> l_nb l1 = l_nb ls /\ l_ncl l1 = l_ncl ls.
+Proof.
+  unfold lstep_ev. destruct (negb (ev_legal (l_tv ls) e)); [discriminate|].
+  destruct e as [id st path kw|id st cid host port kw].
+  - destruct (locate id (l_cdict ls) (l_nc ls)) as [f n]. intros [= <-]. now split.
+  - destruct (locate id (l_sdict ls) (l_ns ls)) as [f n]. intros [= <-]. now split.
+Qed.
+
+(* what the judgement of a non-terminal CIRC event consists of *)
+Lemma spec_op_circ_parts ss id st path kw es ss1 : c_terminal st = false ->
+  spec_op ss (OEv (ECirc id st path kw)) es = Some ss1 ->
+  s_open ss1 = drop_done (dones es) (s_open ss) /\ s_cmdq ss1 = s_cmdq ss /\
+  notif_check (s_l ss) (OEv (ECirc id st path kw)) es = true /\ has_cmd es = false /\ raised es = false.
+Proof.
+  intros T. unfold spec_op. destruct (lstep (s_l ss) (OEv (ECirc id st path kw))) as [l1|]; [|discriminate].
+  unfold spec_event. destruct (locate id (l_cdict (s_l ss)) (l_nc (s_l ss))) as [first o]. rewrite T.
+  match goal with |- (if ?b then _ else _) = _ -> _ => destruct b eqn:E end; [|discriminate]. intros [= <-]. cbn [s_open s_cmdq].
+  apply andb_true_iff in E as [E E4]. apply andb_true_iff in E as [E E3]. apply andb_true_iff in E as [E1 E2].
+  apply negb_true_iff in E3, E4. auto.
+Qed.
+
+Lemma relf_extended ss xs id ls' : RelF ss xs -> KN xs -> lstep (s_l ss) (OExtended id) = Some ls' ->
+  exists xs' es ss', x_op xs (OExtended id) = Some (xs', es) /\ spec_op ss (OExtended id) es = Some ss' /\ RelF ss' xs'.
+Proof.
+  intros Q K L0. pose proof L0 as L. cbn [lstep] in L.
+  destruct (N.ltb_spec 0 (l_nb (s_l ss))) as [Hnb|]; cbn [andb] in L; [|discriminate].
+  destruct (ext_ok (l_tv (s_l ss)) id); [|discriminate].
+  destruct (lstep_ev (s_l ss) (ext_event id)) as [l1|] eqn:L1; [|discriminate]. injection L as <-.
+  destruct (lstep_ev_q _ _ _ L1) as [Q1 Q2].
+  destruct (qinv_head_b _ _ (f_q _ _ Q) Hnb) as [w [q Ec]].
+  destruct (relf_circ ss xs id CExtended [] [] l1 Q K L1) as [xs1 [es1 [ss1 [X1 [S1 Q1']]]]].
+  cbn [x_op] in X1.
+  destruct (spec_op_circ_parts ss id CExtended [] [] es1 ss1 eq_refl S1) as [Op [Cq [Nk [Hc Hr]]]].
+  pose proof (spec_op_l _ _ _ _ S1) as El. cbn [lstep] in El. unfold ext_event in L1. rewrite L1 in El. injection El as El.
+  pose proof (x_circ_waits_g _ _ _ _ _ _ _ X1) as Wg. cbv zeta in Wg. destruct Wg as [_ [_ Dn]].
+  rewrite Dn, drop_done_nil in Op.
+  destruct (x_circ_tables _ _ _ _ _ _ _ X1) as [T1 [T2 T3]]. cbn [c_terminal] in T3.
+  set (o := xc_obj xs id).
+  assert (Eloc : locate id (l_cdict (s_l ss)) (l_nc (s_l ss)) = (xc_first xs id, o)).
+  { pose proof (f_rel _ _ Q) as R. unfold locate, xc_first, o, xc_obj. rewrite <- (r_cdict _ _ R), <- (r_nc _ _ R).
+    destruct (kfind fst id (circuits (base xs))); reflexivity. }
+  set (xs' := {| base := base xs1; cls := cls xs1; sls := sls xs1; gcl := gcl xs1; gsl := gsl xs1; wbs := wbs xs1; wcs := wcs xs1;
+                 cclosing := cclosing xs1; sclosing := sclosing xs1; cmds := q |}).
+  set (es := es1 ++ [NDone w (WOkC o)]).
+  assert (X : x_op xs (OExtended id) = Some (xs', es)) by (cbn [x_op]; rewrite Ec, X1; reflexivity).
+  destruct (hold_step xs _ xs' es (l_used (s_l ss)) X (f_hold_cnt _ _ Q) (f_hold_used _ _ Q)) as [HC HU]; [intros ? []|].
+  pose proof (f_cmdq _ _ Q) as Eq. rewrite Ec in Eq. cbn [map cmd_pair] in Eq.
+  pose proof (f_cmd_nd _ _ Q1') as Nd. rewrite T2, Ec in Nd. cbn [map] in Nd. apply NoDup_cons_iff in Nd as [Hn Hd].
+  exists xs', es, {| s_l := with_q l1 (l_nb (s_l ss) - 1) (l_ncl (s_l ss)); s_open := s_open ss; s_cmdq := map cmd_pair q |}.
+  split; [exact X|]. split.
+  - unfold spec_op. rewrite L0. unfold spec_extended. rewrite Eq, Eloc. unfold es.
+    rewrite notif_check_extended. cbn [notif_check ext_event] in Nk |- *. rewrite Eloc in Nk |- *. rewrite notif_ok_app_done, Nk.
+    rewrite has_cmd_app, raised_app, Hc, Hr. cbn [has_cmd raised existsb orb negb andb].
+    unfold done_ok. rewrite dones_app, Dn. cbn [app dones map concat fst snd nodupN memN negb andb forallb kfind res_ok].
+    rewrite !N.eqb_refl. cbn [res_ok orb andb]. now rewrite N.eqb_refl.
+  - assert (Used : l_used (s_l ss1) = l_used (s_l ss)) by (rewrite <- El; apply (lstep_ev_used _ _ _ L1)).
+    apply (relf_frame ss1 xs1 _ xs' Q1'); try reflexivity; cbn [s_l s_open s_cmdq xs' cmds]; rewrite ?Used.
+    + rewrite <- El. reflexivity.
+    + exact Hd.
+    + intros c Hc0. rewrite <- Used. apply (f_cmd_used _ _ Q1'). rewrite T2, Ec. now right.
+    + intros o' w' ok' Hc0. apply (f_cmd_gone _ _ Q1' o' w' ok'). rewrite T2, Ec. now right.
+    + intros o' w' ok' Hc0. apply (f_cmd_ex _ _ Q1' o' w' ok'). rewrite T2, Ec. now right.
+    + intros wr. rewrite <- Op, (f_open _ _ Q1'). symmetry. apply rec_of_cmds; try reflexivity.
+      * intros o' w' ok'. cbn [xs' cmds]. rewrite T2, Ec. cbn [In]. split; [auto | intros [H|H]; [discriminate | exact H]].
+      * intros w0. unfold has_cmds. cbn [xs' cmds]. rewrite T2, Ec. reflexivity.
+    + rewrite <- Op. exact (f_open_nd _ _ Q1').
+    + exact HC.
+    + exact HU.
+    + pose proof (f_q _ _ Q1') as Fq. rewrite T2, Ec, <- El in Fq. rewrite <- Q1, <- Q2. exact (qinv_pop_build _ _ _ Fq).
+Qed.
+
 (* ---------------------------------------------------------------- every legal history *)
 Lemma relf_op ss xs o ls' : RelF ss xs -> KN xs -> lstep (s_l ss) o = Some ls' ->
   exists xs' es ss', x_op xs o = Some (xs', es) /\ spec_op ss o es = Some ss' /\ RelF ss' xs'.
 Proof.
-  intros Q K L. destruct o as [e|l|l|ob l|ob l|ob l|ob l|ob wt|ob wt|ob wt|ob wt|].
+  intros Q K L. destruct o as [e|l|l|ob l|ob l|ob l|ob l|ob wt|ob wt|ob wt|ob wt| |rs wt|id|].
   - destruct e; [now apply (relf_circ ss xs _ _ _ _ ls') | now apply (relf_stream ss xs _ _ _ _ _ _ ls')].
   - now apply (relf_listener ss xs _ ls').
   - now apply (relf_listener ss xs _ ls').
@@ -1644,7 +1900,10 @@ Proof.
   - now apply (relf_when_closed ss xs _ _ ls').
   - now apply (relf_cclose ss xs _ _ ls').
   - now apply (relf_sclose ss xs _ _ ls').
-  - now apply relf_ack.
+  - now apply (relf_ack ss xs ls').
+  - now apply (relf_build ss xs _ _ ls').
+  - now apply (relf_extended ss xs _ ls').
+  - now apply (relf_builderr ss xs ls').
 Qed.
 
 Lemma oracle_from ops : forall ss xs, RelF ss xs -> KN xs -> legal8_from (s_l ss) ops = true ->
@@ -1664,4 +1923,24 @@ Qed.
 Theorem oracle_all rts ops : legal8 ops = true -> exists tr, xrun rts ops = Some tr /\ oracle8 ops tr = true.
 Proof.
   intros L. apply (oracle_from ops ss0 (xinit rts) (RelF_init rts)); [split; constructor | exact L].
+Qed.
+
+(* the notification clause alone, as a consequence *)
+Lemma notifs_of_run ops : forall ls xs tr, Rel ls xs -> legal8_from ls ops = true -> xrun_from xs ops = Some tr ->
+  notifs_from ls ops tr = true.
+Proof.
+  induction ops as [|o t IH]; intros ls xs tr R L X; cbn [xrun_from legal8_from notifs_from] in *.
+  - now injection X as <-.
+  - destruct (lstep ls o) as [ls'|] eqn:E; [|discriminate].
+    destruct (x_op xs o) as [[xs' es]|] eqn:Xo; [|discriminate].
+    destruct (xrun_from xs' t) as [tr'|] eqn:Xr; [|discriminate]. injection X as <-.
+    destruct (rel_pres ls xs o ls' xs' es R E Xo) as [R' Nk]. cbn [notifs_from]. rewrite Nk. cbn [andb].
+    exact (IH ls' xs' tr' R' L Xr).
+Qed.
+
+Theorem notifications_exact rts ops : legal8 ops = true ->
+  exists tr, xrun rts ops = Some tr /\ notifs_exact ops tr = true.
+Proof.
+  intros L. destruct (oracle_all rts ops L) as [tr [X _]]. exists tr. split; [exact X|].
+  exact (notifs_of_run ops ls0 (xinit rts) tr (Rel_init rts) L X).
 Qed.
